@@ -129,8 +129,28 @@ def d1(repo, rep):
     full = list(calendar.month_name)[1:]
     if abbr in names.values() and full in names.values():
         rep.ok("R-TABLE-AUDIT", "Epoch." + q, "month name tables == calendar.month_abbr / month_name")
-    else:
+    elif len(names) >= 2:
         rep.violation("R-TABLE-AUDIT", "Epoch." + q, "month-names", "month name tables differ from the English calendar names in order")
+    else:
+        # the names are kept in another data structure: audit every 12-entry (or 12 x 2) string table of the module instead
+        found = []
+        for gname, gnode in repo.mod(MOD).globals.items():
+            try:
+                val = ast.literal_eval(gnode)
+            except Exception:
+                continue
+            if isinstance(val, (list, tuple)) and len(val) == 12:
+                if all(isinstance(x, str) for x in val):
+                    found.append(list(val))
+                elif all(isinstance(x, (list, tuple)) and len(x) == 2 and all(isinstance(y, str) for y in x) for x in val):
+                    found.append([x[0] for x in val])
+                    found.append([x[1] for x in val])
+        if abbr in found and full in found:
+            rep.ok("R-TABLE-AUDIT", "Epoch." + q, "month name tables (module level) == calendar.month_abbr / month_name")
+        elif found:
+            rep.violation("R-TABLE-AUDIT", "Epoch." + q, "month-names", "month name tables differ from the English calendar names in order")
+        else:
+            rep.inconcl("R-TABLE-AUDIT", "Epoch." + q, "month name tables not found in a literal form")
     # is_leap
     q = "Epoch.is_leap"
     rep.fn(MOD, q)
@@ -262,12 +282,28 @@ def d34(repo, rep):
     # is_julian threshold == 15 Oct 1582 (first Gregorian day is the one after 4 Oct)
     rep.fn(MOD, "Epoch.is_julian")
     ij = repo.func(MOD, "Epoch.is_julian")
-    tj = norm_text(ij).replace(" ", "")
-    thr_ok = "year<1582" in tj and "year==1582andmonth<10" in tj and ("day<5" in tj or "day<5.0" in tj or "day<=4" in tj)
-    if thr_ok:
-        rep.ok("R-PAIR", "Epoch.Epoch.is_julian", "Julian up to 4 October 1582 (year < 1582, or 1582 and month < 10, or October and day < 5)")
+    # decision table: the arguments are only compared with 1582 / 10 / 5, so every ordering class is evaluated exactly
+    from ..rules import eval_exact, NotEvaluable
+    jn = [a.arg for a in ij.args.args]
+    tj = ret_term(repo, MOD, "Epoch.is_julian", arg_terms={jn[0]: T.sym("NUM_Y"), jn[1]: T.sym("NUM_M"), jn[2]: T.sym("NUM_D")})
+    bad = None
+    try:
+        for y in (1581, 1582, 1583):
+            for mth in (9, 10, 11):
+                for dd in (Fraction(4), Fraction("4.99"), Fraction(5), Fraction(6)):
+                    got = bool(eval_exact(tj, {T.sym("NUM_Y"): Fraction(y), T.sym("NUM_M"): Fraction(mth), T.sym("NUM_D"): dd}))
+                    want = (y, mth, dd) < (1582, 10, Fraction(5))
+                    if got != want and bad is None:
+                        bad = (y, mth, float(dd), got)
+    except NotEvaluable as e:
+        bad = "?" + str(e)
+    if bad is None:
+        rep.ok("R-PAIR", "Epoch.Epoch.is_julian", "Julian up to 4 October 1582 on all 36 ordering classes of (year, month, day) against (1582, 10, 5)")
+    elif isinstance(bad, str):
+        rep.inconcl("R-PAIR", "Epoch.Epoch.is_julian", "decision structure not evaluable: " + bad[1:])
     else:
-        rep.violation("R-PAIR", "Epoch.Epoch.is_julian", "julian-threshold", "is_julian does not switch after 4 October 1582")
+        rep.violation("R-PAIR", "Epoch.Epoch.is_julian", "julian-threshold",
+                      "is_julian(%d, %d, %g) is %s: the calendar does not switch after 4 October 1582" % bad)
     # inverse
     q2 = "Epoch.get_date"
     I = ret_term(repo, MOD, q2, arg_terms={"self": ("epoch", T.sym("J")), "kwargs": ("dict", ())})
